@@ -25,12 +25,13 @@ MutatorsOf(c) ==
       [] c = "variablesdecl" -> {"cssText", "setVariable", "removeVariable", "setitem", "delitem"}
       [] c = "property"      -> {"cssText", "name", "value", "priority"}
       [] c = "value"         -> {"cssText"}
+      [] c = "colorvalue"    -> {"cssText"}
       [] c = "selectorlist"  -> {"selectorText", "appendSelector", "append", "setitem"}
       [] c = "selector"      -> {"selectorText"}
       [] c = "medialist"     -> {"mediaText", "appendMedium", "append", "deleteMedium", "setitem"}
       [] c = "mediaquery"    -> {"mediaText", "mediaType"}
 Classes == {"sheet", "stylerule", "mediarule", "pagerule", "importrule", "namespacerule", "charsetrule", "fontfacerule",
-            "comment", "unknownrule", "variablesrule", "marginrule", "declaration", "variablesdecl", "property", "value", "selectorlist",
+            "comment", "unknownrule", "variablesrule", "marginrule", "declaration", "variablesdecl", "property", "value", "colorvalue", "selectorlist",
             "selector", "medialist", "mediaquery"}
 \* where in the new content the offending part sits
 Stages == {"immediate",     \* the very first token / the argument as a whole is unacceptable
